@@ -3,10 +3,10 @@
 package main
 
 import (
-	"io"
 	"bytes"
 	"flag"
 	"fmt"
+	"io"
 	"os"
 	"os/exec"
 	"strconv"
